@@ -585,6 +585,7 @@ func init() {
 			{Name: "histories-full-d3", KQuick: -1, KThor: -1, Gen: c15Gen(3, 3)},
 			{Name: "histories-dev-d5", KQuick: 4, KThor: 5, Gen: c15Gen(5, 6)},
 			{Name: "rename-notation-bound-to-real-git", KQuick: -1, KThor: -1, Gen: c15BindGen},
+			{Name: "through-coca-git-tables", KQuick: 2, KThor: 3, Gen: c15CliGen},
 		},
 	})
 }
